@@ -34,6 +34,8 @@ PrefBases == {<<"new", "push">>, <<"new", "push", "push">>, <<"new", "push", "pu
               <<"new", "push", "push", "push", "pop">>,               \* stale element behind len
               <<"with_capacity", "push", "push", "push">>,            \* len = cap = 3: next growth gives 6
               <<"with_capacity", "push">>}
+PrefBases2 == {<<"new", "push", "push">>, <<"new", "push", "push", "push", "push">>,
+               <<"new", "push", "push", "push", "pop">>, <<"with_capacity", "push", "push", "push">>}
 PrefStr   == {<<"new">>, <<"with_capacity">>, <<"from_str">>}
 NumGroups == {"arith", "divmod", "wrapping", "pow", "sqrt", "log", "log2", "conv"}
 NumSel_none == {}
@@ -73,6 +75,7 @@ OpsNamed(name, s, v) ==
       [] name = "resize"        -> {Op("resize", i, 0, v) : i \in Ix(n) \cup {n + 3}}
                                    \cup (IF MKind = "bytes" THEN {Op("resize", n + 2, 0, 0)} ELSE {})
       [] name = "get"           -> {Op("get", HugeIx, 0, 0)}
+      [] name = "iter"          -> {Op("iter", 0, 0, v)}
       [] name = "append"        -> {Op("append", 0, 60 + 4 * v, c) : c \in {0, 1, 3}}
       [] name = "append_self"   -> {Op("append_self", 0, 0, 0)}
       [] name = "split_at"      -> {Op("split_at", i, 0, 0) : i \in Ix(n)}
@@ -161,6 +164,7 @@ PairVals(w) == IF w >= 16          \* (the 16- and 32-byte cases cost TLC about 
                THEN { LEq(w, 0), LEq(w, 1), LEq(w, 7), MaxV(w), Dec(MaxV(w)), Half(w), Dec(Half(w)) }
                ELSE { LEq(w, 0), LEq(w, 1), LEq(w, 2), LEq(w, 7), MaxV(w), Dec(MaxV(w)), Half(w), Dec(Half(w)), Inc(Half(w)),
                       P2(w, 8 * w - 1) }
+DivVals(w) == { LEq(w, 3), LEq(w, 10), P2(w, 8 * w - 1), Inc(Half(w)) }
 Exponents == {0, 1, 2, 3, 7, 8, 15, 16, 31, 32, 63, 64, 127, 128, 255, 256}
 ShiftAmts == {0, 1, 7, 63, 64, 65, 127, 128, 129, 255, 256}
 LogBases(w) == { LEq(w, 0), LEq(w, 1), LEq(w, 2), LEq(w, 3), LEq(w, 7), LEq(w, 10), Half(w), MaxV(w) }
@@ -172,7 +176,7 @@ CasesOf(t, grp) ==
     CASE grp = "arith" ->
             { Case(t, op, m, a, ToBE(b), 0, "") : op \in {"add", "sub", "mul"}, m \in {"D", "W"}, a \in PairVals(w), b \in PairVals(w) }
       [] grp = "divmod" ->
-            { Case(t, op, m, a, ToBE(b), 0, "") : op \in {"div", "mod"}, m \in {"D", "U"}, a \in PairVals(w), b \in PairVals(w) }
+            { Case(t, "divmod", m, a, ToBE(b), 0, "") : m \in {"D", "U"}, a \in PairVals(w) \cup DivVals(w), b \in PairVals(w) \cup DivVals(w) }
       [] grp = "wrapping" ->
             { Case(t, op, "D", a, ToBE(b), 0, "") : op \in {"wrapping_add", "wrapping_sub", "wrapping_mul"}, a \in PairVals(w), b \in PairVals(w) }
       [] grp = "overflowing" ->
@@ -216,9 +220,10 @@ NumLaws ==
     /\ (c.b # <<>>) => MulFast(a, FromBE(c.b)) = MulFull(a, FromBE(c.b))
     /\ (c.op = "sub" /\ x.out = "return" /\ c.mode = "D") =>
           Add(FromBE(x.items[1].b), FromBE(c.b)).v = a                       \* (a - b) + b = a
-    /\ (c.op \in {"div", "mod"} /\ ~IsZero(FromBE(c.b))) =>
-          LET d == DivModT(a, FromBE(c.b)) p == MulW(d.q, FromBE(c.b), w) IN
-             /\ ~p.ovf /\ Add(p.v, d.r).v = a /\ Lt(d.r, FromBE(c.b))           \* a = q*b + r, r < b
+    /\ (c.op = "divmod" /\ ~IsZero(FromBE(c.b)) /\ w <= 8) =>                  \* the relation holds of Bytes!DivMod
+          LET d == DivModT(a, FromBE(c.b)) IN
+             /\ IsDivMod(a, FromBE(c.b), d.q, d.r, w)
+             /\ ~IsDivMod(a, FromBE(c.b), Inc(d.q), d.r, w)
              /\ (w <= 2) => (DivMod(a, FromBE(c.b)).q = d.q /\ DivMod(a, FromBE(c.b)).r = d.r)
     /\ (c.op = "pow" /\ x.out = "return" /\ c.mode = "D" /\ c.n > 0) =>
           LET q == Pow(a, c.n - 1, w) IN ~q.ovf /\ MulW(q.v, a, w).v = FromBE(x.items[1].b)   \* a^e = a^(e-1) * a
